@@ -115,7 +115,14 @@ func oneRetry(line string) string {
 		var resp *http.Response
 		var err error
 		if o.hasResp {
-			resp = &http.Response{StatusCode: o.status, Body: &trackedBody{r: strings.NewReader("b" + strconv.Itoa(i))}}
+			resp = &http.Response{StatusCode: o.status, Body: &trackedBody{r: strings.NewReader("b" + strconv.Itoa(i))}, Header: http.Header{}}
+			// what the server says about retrying is no concern of the loop: it waits d
+			switch errKind {
+			case 1:
+				resp.Header.Set("Retry-After", "0")
+			case 2:
+				resp.Header.Set("Retry-After", "Wed, 21 Oct 2015 07:28:00 GMT")
+			}
 			resps[resp] = i
 		}
 		if o.hasErr {
@@ -158,6 +165,8 @@ func oneRetry(line string) string {
 		case 2:
 			req, _ = http.NewRequestWithContext(ctx, "PUT", "http://example.invalid/x", io.NopCloser(strings.NewReader(`{"a":2}`)))
 			req.GetBody = nil
+			// a hand-built request as a mocked transport sees it: no Header map at all
+			req.Header = nil
 		default:
 			req, _ = http.NewRequestWithContext(ctx, "GET", "http://example.invalid/x", nil)
 		}
